@@ -159,7 +159,7 @@ def model_answer(ctx, cases, good, failing):
 
 
 def run(ctx):
-    n = 300 if ctx.tier == "quick" else 5000
+    n = ctx.n(300, 5000)
     rng = core.Rng(ctx.seed)
     d = os.path.join(ctx.work, "files")
     good, failing, plain = setup_dir(ctx, d, rng)
